@@ -239,7 +239,12 @@ class Ctx:
         q = "Require Import %s.\n" % mod
         for t in thms:
             q += 'Goal True. idtac "@@THM %s". exact I. Qed.\nPrint Assumptions %s.\n' % (t, t)
+        self.last_targets = targets
         rc2, out2 = self.coq_script("assumptions", q, timeout=600)
+        if rc2 != 0 and "nconsistent assumptions" in out2:
+            # stale .vo after a regenerated/shared file changed: full make under the lock, then retry once
+            self.rebuild_targets()
+            rc2, out2 = self.coq_script("assumptions", q, timeout=600)
         if rc2 != 0:
             res["log"] += "\nPrint Assumptions failed:\n" + out2[-3000:]
             self.l1 = res
@@ -262,6 +267,14 @@ class Ctx:
         self.l1 = res
         return res
 
+    def rebuild_targets(self):
+        targets = getattr(self, "last_targets", None)
+        if not targets:
+            return
+        with Lock("coq"):
+            ensure_coq_makefile()
+            sh(["make", "-j%d" % njobs()] + list(targets), cwd=COQ, timeout=3000)
+
     def coq_script(self, name, text, timeout=900):
         """Run a Coq script (Require Import CV....) with coqc; return (rc, output)."""
         d = os.path.join(self.work, "coq")
@@ -283,7 +296,14 @@ class Ctx:
             return path, rc, out
 
         with ThreadPoolExecutor(max_workers=min(jobs, njobs())) as ex:
-            for path, rc, out in ex.map(one, files):
+            results = list(ex.map(one, files))
+        if any(rc != 0 and "nconsistent assumptions" in out for _, rc, out in results):
+            # a library was rebuilt underneath us (shared file changed / Gen file regenerated): rebuild and retry once
+            self.rebuild_targets()
+            with ThreadPoolExecutor(max_workers=min(jobs, njobs())) as ex:
+                results = list(ex.map(one, files))
+        if True:
+            for path, rc, out in results:
                 if rc != 0:
                     errs[path] = out[-3000:]
                     continue
